@@ -181,6 +181,7 @@ func c20oracle(e *c20env, terminated bool, idle bool) {
 				verif_Assert(e.kinds[i] != 2, "C20 a structurally invalid manifest is never accepted")
 				if e.afterUpd[i] {
 					verif_Assert(e.kinds[i] == 1, "C10 after a version update only a manifest with the updated version is accepted")
+					verif_Assert(e.kinds[i] == 1, "C20 only a validated manifest is accepted and announced: a manifest of a superseded version does not pass validation")
 				}
 			case errors.Is(r, ErrManifestVersion):
 				if e.afterUpd[i] {
